@@ -123,6 +123,9 @@ Fixpoint table_agrees (s : sstate cstate) (ops : list (ev (list Z) * Z)) (news :
       end
   end.
 
+Definition is_ping_bytes (d : list Z) : bool :=
+  match d with [b0; b1; _; _] => (b0 =? 64) && (b1 =? 0) | _ => false end.
+
 Definition goods_of (peers : list peer_obs) : list (list (greq * option owire) * Z * Z * list hcall) :=
   flat_map (fun p => if p_good p then
      [(flat_map (fun s => match s_req s with Some q => [(q, s_obs s)] | None => [] end) (p_sends p), p_newconn p, p_errs p, p_hlog p)]
@@ -200,11 +203,23 @@ Definition agrees (c : case) : bool :=
 
 Definition pclass (c : case) : N :=
   match c with
-  | UdpRun _ _ _ peers _ alive probe stopped panics => c10_run_class alive probe stopped panics (goods_of peers)
+  | UdpRun _ _ _ peers _ alive probe stopped panics =>
+      let c := c10_run_class alive probe stopped panics (goods_of peers) in
+      if negb (N.eqb c 0) then c
+      (* the server keeps serving every peer: each well-formed ping of an adversarial peer is answered too *)
+      else if forallb (fun p => p_good p || (p_pongs p =? blen (filter (fun s => is_ping_bytes (dg_bytes (s_dg s))) (p_sends p)))) peers
+           then 0%N else 8%N
   | TcpRun goods alive probe stopped panics => c10_run_class alive probe stopped panics goods
   | DiscRun _ _ steps => if disc_ok [] (map (fun x => fst (fst x)) steps) then 0%N else 7%N
   (* every ping must be answered: a datagram for a key whose connection was closed is served by a replacement, not dropped *)
   | RaceRun _ _ pairs _ _ _ _ op od => if (od =? 0) && (op =? Z.of_nat pairs) then 0%N else 8%N
+  (* "never stops accepting": Serve may return only after the listener was closed or after its own context ended *)
+  | AcceptRun _ script oc _ _ =>
+      if oc <=? 0 then 0%N
+      else match nth_error script (Z.to_nat (oc - 1)) with
+           | Some (AccListenerClosed, _) | Some (AccDeadline, true) | Some (AccCanceled, true) => 0%N
+           | _ => 9%N
+           end
   | _ => 0%N
   end.
 
